@@ -58,6 +58,9 @@ TakeWhileL(s, pred) == IF s = <<>> \/ Head(s) \notin pred THEN <<>> ELSE <<Head(
 SeqKinds == {"Map", "FMap", "Filter", "ForEach", "Void", "Fold", "Partition", "Take", "TakeWhile"}
 \* fork.Take / TakeWhile / Emit / Unfold / Join / Throttling delegate to pipe: sequential whatever cfg.forked says
 Parallel(cfg) == cfg.forked /\ cfg.par > 1 /\ cfg.kind \in {"Map", "FMap", "Filter", "ForEach", "Void", "Fold", "Partition"}
+\* a parallel stage under Lift: every worker stops at its own first failure; which elements the others still process is
+\* not fixed by any property (C09 speaks of Try-mode errors): only the panic / closure / no-leak predicates apply there
+Unspecified(cfg) == Parallel(cfg) /\ cfg.mode = "lift" /\ cfg.fail # {}
 Ok(cfg, s) == IF cfg.mode = "try" THEN Good(s, cfg.fail) ELSE IF cfg.mode = "lift" THEN UpToFirstFail(s, cfg.fail) ELSE s
 Errs(cfg, s) == IF cfg.mode = "try" THEN Bad(s, cfg.fail) ELSE IF cfg.mode = "lift" THEN FirstN(Bad(s, cfg.fail), 1) ELSE <<>>
 \* expected content of returned channel o for the input sequence s (uncancelled result)
@@ -92,7 +95,7 @@ OneIn(cfg) == cfg.kind \in SeqKinds \cup {"Throttling", "New", "ToSeq"}
 (* ==================================================================================== C05 / C06 / C07 / C09 *)
 \* what has been delivered is always a prefix (parallel stages: a sub-multiset) of the uncancelled result
 Prefix(cfg, obs) ==
-  (cfg.kind \in (SeqKinds \ {"Fold"}) \cup {"Throttling", "New", "ToSeq"}) =>
+  (cfg.kind \in (SeqKinds \ {"Fold"}) \cup {"Throttling", "New", "ToSeq"} /\ ~Unspecified(cfg)) =>
     \A o \in obs.outs : IF Parallel(cfg) THEN SubBag(obs.got[o], L(cfg, o, Offered(obs, 1)))
                                          ELSE IsPrefix(obs.got[o], L(cfg, o, Offered(obs, 1)))
 \* Fold: at most one value, and it is the fold of everything offered, from the monoid's Empty
@@ -102,7 +105,7 @@ FoldRes(cfg, obs) ==
                        /\ (obs.got["res"] # <<>> /\ (~cfg.forked \/ ~obs.cancelled)) => obs.got["res"] = L(cfg, "res", Offered(obs, 1))
 \* when the input ended and every returned channel was seen closed (no cancel): exactly the list image
 Complete(cfg, obs) ==
-  (OneIn(cfg) /\ ~obs.cancelled /\ AllInClosed(obs) /\ AllSeen(obs)) =>
+  (OneIn(cfg) /\ ~Unspecified(cfg) /\ ~obs.cancelled /\ AllInClosed(obs) /\ AllSeen(obs)) =>
     \A o \in obs.outs : IF Parallel(cfg) /\ cfg.kind # "Fold" THEN BagEq(obs.got[o], L(cfg, o, obs.sent[1]))
                                                               ELSE obs.got[o] = L(cfg, o, obs.sent[1])
 \* Seq lifts a list into a (closed) channel: exactly its elements, in order
@@ -114,11 +117,11 @@ TakeBound(cfg, obs) == (cfg.kind = "Take" /\ cfg.n >= 0 /\ obs.quiet) => Len(obs
 \* the user function is entered once per element it has to process, in input order (parallel: as a multiset),
 \* and never on an element after the point where the stage has to stop (Lift: first failure; TakeWhile: first refusal)
 CallsPrefix(cfg, obs) ==
-  (cfg.kind \in SeqKinds /\ cfg.kind # "Fold") =>
+  (cfg.kind \in SeqKinds /\ cfg.kind # "Fold" /\ ~Unspecified(cfg)) =>
     IF Parallel(cfg) THEN SubBag(CallXs(obs), CalledL(cfg, Offered(obs, 1)))
                      ELSE IsPrefix(CallXs(obs), CalledL(cfg, Offered(obs, 1)))
 CallsComplete(cfg, obs) ==
-  (cfg.kind \in SeqKinds /\ ~obs.cancelled /\ AllInClosed(obs) /\ AllSeen(obs)) =>
+  (cfg.kind \in SeqKinds /\ ~Unspecified(cfg) /\ ~obs.cancelled /\ AllInClosed(obs) /\ AllSeen(obs)) =>
     IF cfg.kind = "Fold"
     THEN LET n == Len(obs.sent[1]) IN
          /\ Len(obs.calls) = n + (IF cfg.forked THEN cfg.par ELSE 0)
